@@ -5,6 +5,7 @@ import (
 	"fmt"
 	"strings"
 	"testing"
+	"time"
 
 	"github.com/lightninglabs/lightning-node-connect/mailbox"
 )
@@ -52,9 +53,39 @@ func ints(l []int) string {
 	return strings.Join(s, ",")
 }
 
+// kinds whose connection was abandoned because a Read blocked for good
+var c15Dead = map[string]bool{}
+
+// readTimed performs rd.Read under a watchdog: all data has been written before
+// the reads start, so a Read that does not return while bytes are owed means
+// bytes were lost.
+func readTimed(rd streamEnd, buf []byte) (n int, err error, panicked bool, msg string, timedOut bool) {
+	type res struct {
+		n   int
+		err error
+		p   bool
+		msg string
+	}
+	ch := make(chan res, 1)
+	go func() {
+		var x res
+		x.p, x.msg = safely(func() { x.n, x.err = rd.Read(buf) })
+		ch <- x
+	}()
+	select {
+	case x := <-ch:
+		return x.n, x.err, x.p, x.msg, false
+	case <-time.After(20 * time.Second):
+		return 0, nil, false, "", true
+	}
+}
+
 // streamCase: the writer end performs the writes, then the reader end reads
 // with the given buffer sizes as long as data is owed.
 func streamCase(r *Recorder, kind string, w, rd streamEnd, writes, ks []int, class string) {
+	if c15Dead[kind] {
+		return
+	}
 	var sent []byte
 	var accepted []int
 	if len(writes) == 0 || writes[len(writes)-1] == 0 {
@@ -95,9 +126,13 @@ func streamCase(r *Recorder, kind string, w, rd streamEnd, writes, ks []int, cla
 			break
 		}
 		buf := make([]byte, k)
-		var n int
-		var err error
-		p, msg := safely(func() { n, err = rd.Read(buf) })
+		n, err, p, msg, timedOut := readTimed(rd, buf)
+		if timedOut {
+			c15Dead[kind] = true
+			r.Violate("C15/bytes-lost", fmt.Sprintf("%s Read(buf[%d]) blocks although %d of the %d bytes written were never handed out (writes %v, buffers %v)",
+				kind, k, len(sent)-len(got), len(sent), writes, ks), map[string]interface{}{"kind": kind, "writes": writes, "ks": ks})
+			return
+		}
 		if p {
 			r.Violate("C15/read-panic", fmt.Sprintf("%s Read(buf[%d]) panicked: %s", kind, k, msg), map[string]interface{}{"kind": kind, "writes": writes, "ks": ks})
 			return
@@ -123,7 +158,13 @@ func streamCase(r *Recorder, kind string, w, rd streamEnd, writes, ks []int, cla
 	rest := len(sent) - len(got)
 	for len(got) < len(sent) {
 		buf := make([]byte, 70000)
-		n, err := rd.Read(buf)
+		n, err, _, _, timedOut := readTimed(rd, buf)
+		if timedOut {
+			c15Dead[kind] = true
+			r.Violate("C15/bytes-lost", fmt.Sprintf("%s: draining Read blocks although %d of the %d bytes written were never handed out (writes %v, buffers %v)",
+				kind, len(sent)-len(got), len(sent), writes, ks), map[string]interface{}{"kind": kind, "writes": writes, "ks": ks})
+			return
+		}
 		if err != nil || n > len(buf) {
 			r.Violate("C15/drain-failed", fmt.Sprintf("%s: %v", kind, err), writes)
 			return
